@@ -771,6 +771,11 @@ func CheckModuli(q, p []uint64) error {
 		}
 	}
 
+	// Q and P must be coprime (basis extension Q<->P, division by P): no prime may appear twice in Q∪P.
+	if !utils.AllDistinct(append(append([]uint64{}, q...), p...)) {
+		return fmt.Errorf("the moduli of Q and P are not pairwise distinct")
+	}
+
 	return nil
 }
 
